@@ -16,7 +16,7 @@
    number of children. *)
 From Coq Require Import List NArith Bool Permutation.
 Import ListNotations.
-Require Import Aiuti.Gather Aiuti.GatherInv Aiuti.Case_C20 Aiuti.GatherMon.
+Require Import Aiuti.Gather Aiuti.GatherInv Aiuti.Case_C20 Aiuti.GatherMon Aiuti.GatherSound.
 
 (* gather_excs always terminates, at the tick the last awaitable completes (or
    the tick of the call if that is later / there is none), and yields exactly
@@ -85,6 +85,96 @@ Theorem monitor_accepts_model :
 Proof. exact monitor_accepts_model_lemma. Qed.
 Print Assumptions monitor_accepts_model.
 
+(* ---- run to completion, whatever the others do ------------------------------ *)
+(* A failure of one awaitable never cancels or skips another, for EVERY order in
+   which the children complete: at the end every child's result slot holds ITS
+   OWN scripted outcome, the completion log is exactly the schedule (each child
+   once, at its own tick — the machine has no transition that cancels a child),
+   and the outer future carries the outcomes in input order. *)
+Theorem each_completes_with_its_own_outcome :
+  forall aws tcall (sched : list (N * nat)),
+    Permutation (map snd sched) (seq 0 (length aws)) ->
+    let s := grun aws tcall sched in
+    (forall i a, nth_error aws i = Some a -> res s i = Some (aout a)) /\
+    clog s = map (fun ev => (snd ev, fst ev)) sched /\
+    outer s = Some (maxl (map fst sched) tcall, map (fun a => Some (aout a)) aws).
+Proof. exact own_outcome_lemma. Qed.
+Print Assumptions each_completes_with_its_own_outcome.
+
+(* ... and who completes when does not depend on anybody's outcome: turning any
+   returns into failures (of any class) or back leaves the completion log
+   unchanged *)
+Theorem completion_log_independent_of_outcomes :
+  forall tcall aws aws',
+    map aform aws = map aform aws' -> map adelay aws = map adelay aws' ->
+    clog (grun aws tcall (schedule tcall aws)) = clog (grun aws' tcall (schedule tcall aws')).
+Proof. exact clog_independent_of_outcomes. Qed.
+Print Assumptions completion_log_independent_of_outcomes.
+
+(* ---- isinstance over the class forest ------------------------------------------ *)
+(* [Ancestor h c a]: a is c or is reached from c by following parents.  For every
+   forest in which each class is numbered after its parent ([forest_ok]; the
+   harness cannot even build another one: a class is created from its parent
+   class object) the executable test [isinst h] used by the cases is exactly
+   that relation. *)
+Theorem isinstance_is_ancestor :
+  forall h c a, forest_ok h = true -> (isinst h c a = true <-> Ancestor h c a).
+Proof. exact isinst_ancestor. Qed.
+Print Assumptions isinstance_is_ancestor.
+
+(* raise_first_exc with `only` ranging over the hierarchy: it raises e iff e is
+   the exception of the FIRST awaitable (input order) that fails with a class
+   having `only` as itself-or-ancestor — earlier failures of other branches
+   (e.g. a BaseException-only class when only = Exception) are passed over —,
+   and returns None iff no failure is an instance of `only`. *)
+Theorem raise_first_over_hierarchy :
+  forall h aws only tcall,
+    forest_ok h = true ->
+    (forall e, raise_first_exc (isinst h) aws only tcall = Some (tdone tcall aws, Some e) <->
+       exists pre a c post, aws = pre ++ a :: post /\ aout a = Raise c e /\ Ancestor h c only /\
+         forall a' c' e', In a' pre -> aout a' = Raise c' e' -> ~ Ancestor h c' only) /\
+    (raise_first_exc (isinst h) aws only tcall = Some (tdone tcall aws, None) <->
+       forall a c e, In a aws -> aout a = Raise c e -> ~ Ancestor h c only).
+Proof. exact raise_first_hierarchy_lemma. Qed.
+Print Assumptions raise_first_over_hierarchy.
+
+(* ---- the monitor decides the property on the OBSERVED trace alone -------------
+   (no model involved).  [observed_ok rm h only aws o] (GatherSound.v) says, about
+   one observed run o = (completion record per awaitable, yields, how the
+   consumer ended):
+     * there is one completion record per awaitable, each of kind "ran to
+       completion" (not pending, not cancelled) at a tick not later than the tick
+       at which the consumer was told the end / got the exception;
+     * with sel = the exceptions of the awaitables that raise a class having
+       `only` as itself-or-ancestor, in INPUT order ([Selected], unique):
+       gather_excs: the generator ended normally, the yielded exceptions are
+       exactly sel in that order, and at every yield every awaitable had already
+       completed (tick-wise and by the count taken at that moment);
+       raise_first_exc: it raised the first of sel, or returned None when sel is
+       empty.
+   [monitor_sound]: whatever the implementation did, if the monitor accepts its
+   trace then that trace satisfies the statement; [monitor_sound_converse]: the
+   monitor rejects nothing that satisfies it. *)
+Theorem monitor_sound :
+  forall rm h only tcall aws o,
+    forest_ok h = true ->
+    ok (Case rm h only tcall aws o) = true -> observed_ok rm h only aws o.
+Proof. intros rm h only tcall aws o Hok. apply (ok_iff_observed_ok rm h only tcall aws o Hok). Qed.
+Print Assumptions monitor_sound.
+
+Theorem monitor_sound_converse :
+  forall rm h only tcall aws o,
+    forest_ok h = true ->
+    observed_ok rm h only aws o -> ok (Case rm h only tcall aws o) = true.
+Proof. intros rm h only tcall aws o Hok. apply (ok_iff_observed_ok rm h only tcall aws o Hok). Qed.
+Print Assumptions monitor_sound_converse.
+
+(* "exactly": the selected list is determined by the input *)
+Theorem selected_unique :
+  forall h only aws ys ys', Selected h only aws ys -> Selected h only aws ys' -> ys = ys'.
+Proof. exact selected_unique_lemma. Qed.
+Print Assumptions selected_unique.
+
 (* ---- non-vacuity ---------------------------------------------------------- *)
 (* forest: 0 BaseException, 1 Exception, 2 EBase(1), 3 ESub(2), 4 EOther(1), 5 BOnly(0) *)
 Definition h6 : hier := [None; Some 0; Some 1; Some 2; Some 1; Some 0].
@@ -111,3 +201,44 @@ Example monitor_rejects :
   ok (Case false h6 1 0 aws (mkobs [(2, 1%N); (1, 1%N)] [(2, 1%N, 1)] (1, 0, 1%N))) = false /\
   ok (Case false h6 1 0 aws (mkobs [(1, 2%N); (1, 1%N)] [(1, 1%N, 1); (2, 2%N, 2)] (1, 0, 2%N))) = false.
 Proof. vm_compute. repeat split. Qed.
+
+(* hypotheses of the forest theorems are satisfiable: the forests of the cases are
+   numbered parents-first; class 3 (ESub) is an instance of 1 (Exception) via 2,
+   class 5 (BOnly) is not; a cyclic "forest" is excluded *)
+Example forest_example :
+  forest_ok h6 = true /\ forest_ok [None; Some 0; Some 1; Some 2; Some 1; Some 0; Some 5] = true /\
+  forest_ok [Some 1; Some 0] = false /\
+  Ancestor h6 3 1 /\ ~ Ancestor h6 5 1 /\ Ancestor h6 5 0.
+Proof.
+  repeat split; try reflexivity.
+  - eapply Anc_up; [reflexivity|]. eapply Anc_up; [reflexivity|]. constructor.
+  - intros H. apply (isinstance_is_ancestor h6 5 1 eq_refl) in H. discriminate.
+  - eapply Anc_up; [reflexivity|]. constructor.
+Qed.
+
+(* raise_first_exc over the hierarchy, BaseException-only branch: the first
+   failure is of class 5 (BOnly): passed over under only = 1 (Exception), where
+   the later ESub failure is raised; raised under only = 0 (BaseException) and
+   under only = 5; nothing is raised under only = 4 (an unrelated class) *)
+Example raise_first_hierarchy_example :
+  let aws := [mkaw Coro 3 (Raise 5 1); mkaw Coro 1 Ret; mkaw Coro 2 (Raise 3 3)] in
+  raise_first_exc (isinst h6) aws 1 0 = Some (3%N, Some 3) /\
+  raise_first_exc (isinst h6) aws 0 0 = Some (3%N, Some 1) /\
+  raise_first_exc (isinst h6) aws 5 0 = Some (3%N, Some 1) /\
+  raise_first_exc (isinst h6) aws 4 0 = Some (3%N, None) /\
+  clog (grun aws 0 (schedule 0 aws)) = [(1, 1%N); (2, 2%N); (0, 3%N)].
+Proof. vm_compute. repeat split. Qed.
+
+(* the readable statement itself on concrete observations (via the two monitor
+   theorems): the input-order trace satisfies it, the finishing-order one does not *)
+Example observed_ok_example :
+  let aws := [mkaw Coro 2 (Raise 2 1); mkaw Coro 1 (Raise 2 2)] in
+  observed_ok false h6 1 aws (mkobs [(1, 2%N); (1, 1%N)] [(1, 2%N, 2); (2, 2%N, 2)] (1, 0, 2%N)) /\
+  ~ observed_ok false h6 1 aws (mkobs [(1, 2%N); (1, 1%N)] [(2, 2%N, 2); (1, 2%N, 2)] (1, 0, 2%N)) /\
+  ~ observed_ok false h6 1 aws (mkobs [(2, 1%N); (1, 1%N)] [(2, 1%N, 1)] (1, 0, 1%N)).
+Proof.
+  cbv zeta. split; [|split].
+  - apply (monitor_sound false h6 1 0%N); reflexivity.
+  - intros H. apply (monitor_sound_converse false h6 1 0%N) in H; [discriminate|reflexivity].
+  - intros H. apply (monitor_sound_converse false h6 1 0%N) in H; [discriminate|reflexivity].
+Qed.
